@@ -65,43 +65,50 @@ RayOKInt(r) ==
               /\ PointOK(r.t, bx, pos, dir, DT(RI!Entry(bi, r.I.pos, r.I.dir)), Vals(r.t, r.entry), FALSE)
               /\ PointOK(r.t, bx, pos, dir, DT(RI!Exit(bi, r.I.pos, r.I.dir)), Vals(r.t, r.exit), FALSE))
 
-RayOK(r) ==
+\* everything derived from one float record, evaluated once (TLC re-evaluates LET definitions at every reference)
+RayCtx(r) ==
     LET bx == [mn |-> Vals(r.t, r.mn), mx |-> Vals(r.t, r.mx)]
         pos == Vals(r.t, r.pos)
         dir == Vals(r.t, r.dir)
         inner == Resize(bx, pos, -1)
         outer == Resize(bx, pos, 1)
-        hitIn == Hit(inner, pos, dir) /\ Hit(bx, pos, dir)
-        lhitIn == LineHit(inner, pos, dir) /\ LineHit(bx, pos, dir)
-        hitScoped == hitIn /\ ParOK(r.t, FirstContact(bx, pos, dir))
-        lhitScoped == lhitIn /\ ParOK(r.t, Entry(bx, pos, dir)) /\ ParOK(r.t, Exit(bx, pos, dir))
-    IN  /\ (~Hit(outer, pos, dir) => r.hit = 0 /\ r.hit3 = 0)
+        hit == Hit(bx, pos, dir)
+        lhit == LineHit(bx, pos, dir)
+        none == <<D!DZero, D!DOne>>
+    IN  [bx |-> bx, pos |-> pos, dir |-> dir, hit |-> hit, lhit |-> lhit,
+         hitIn |-> hit /\ Hit(inner, pos, dir), hitOut |-> Hit(outer, pos, dir),
+         lhitIn |-> lhit /\ LineHit(inner, pos, dir), lhitOut |-> LineHit(outer, pos, dir),
+         fc |-> IF hit THEN FirstContact(bx, pos, dir) ELSE none,
+         en |-> IF lhit THEN Entry(bx, pos, dir) ELSE none,
+         ex |-> IF lhit THEN Exit(bx, pos, dir) ELSE none,
+         inside |-> OriginInside(bx, pos, dir)]
+RayOKc(r, c) ==
+    LET hitScoped == c.hitIn /\ ParOK(r.t, c.fc)
+        lhitScoped == c.lhitIn /\ ParOK(r.t, c.en) /\ ParOK(r.t, c.ex)
+    IN  /\ (~c.hitOut => r.hit = 0 /\ r.hit3 = 0)
         /\ (hitScoped => r.hit = 1 /\ r.hit3 = 1)
-        /\ (~LineHit(outer, pos, dir) => r.ee = 0)
+        /\ (~c.lhitOut => r.ee = 0)
         /\ (lhitScoped => r.ee = 1)
         /\ (hitScoped /\ r.hit3 = 1 =>
               /\ FiniteAll(r.t, r.ip)
-              /\ PointOK(r.t, bx, pos, dir, FirstContact(bx, pos, dir), Vals(r.t, r.ip), OriginInside(bx, pos, dir)))
+              /\ PointOK(r.t, c.bx, c.pos, c.dir, c.fc, Vals(r.t, r.ip), c.inside))
         /\ (lhitScoped /\ r.ee = 1 =>
               /\ FiniteAll(r.t, r.entry) /\ FiniteAll(r.t, r.exit)
-              /\ PointOK(r.t, bx, pos, dir, Entry(bx, pos, dir), Vals(r.t, r.entry), FALSE)
-              /\ PointOK(r.t, bx, pos, dir, Exit(bx, pos, dir), Vals(r.t, r.exit), FALSE))
-
+              /\ PointOK(r.t, c.bx, c.pos, c.dir, c.en, Vals(r.t, r.entry), FALSE)
+              /\ PointOK(r.t, c.bx, c.pos, c.dir, c.ex, Vals(r.t, r.exit), FALSE))
 \* a record is counted as skipped when an exact hit could not be judged
-Unjudged(r) ==
-    ~Has(r, "I") /\
-    LET bx == [mn |-> Vals(r.t, r.mn), mx |-> Vals(r.t, r.mx)]
-        pos == Vals(r.t, r.pos)
-        dir == Vals(r.t, r.dir)
-    IN  \/ (Hit(Resize(bx, pos, 1), pos, dir) /\ ~Hit(Resize(bx, pos, -1), pos, dir))
-        \/ (Hit(bx, pos, dir) /\ ~ParOK(r.t, FirstContact(bx, pos, dir)))
+Unjudgedc(r, c) == (c.hitOut /\ ~c.hitIn) \/ (c.hit /\ ~ParOK(r.t, c.fc))
 
 Init == l = 1 /\ skipped = 0
 StepRec ==
     /\ l <= TraceLen
     /\ LET r == Rec
-       IN  /\ IF (IF Has(r, "I") THEN RayOKInt(r) ELSE RayOK(r)) THEN TRUE ELSE ReportBad(l, <<r.e, r.fam, r.t>>)
-           /\ skipped' = IF Unjudged(r) THEN skipped + 1 ELSE skipped
+       IN  IF Has(r, "I")
+           THEN /\ (IF RayOKInt(r) THEN TRUE ELSE ReportBad(l, <<r.e, r.fam, r.t>>))
+                /\ skipped' = skipped
+           ELSE \E c \in {RayCtx(r)} :
+                /\ (IF RayOKc(r, c) THEN TRUE ELSE ReportBad(l, <<r.e, r.fam, r.t>>))
+                /\ skipped' = IF Unjudgedc(r, c) THEN skipped + 1 ELSE skipped
     /\ l' = l + 1
 Finish == /\ l = TraceLen + 1 /\ ReportDone(TraceLen) /\ PrintT(<<"INFO", "skipped", skipped>>)
           /\ l' = l + 1 /\ UNCHANGED skipped
